@@ -79,7 +79,7 @@ impl<T: TokenStream> PreProcessor<T> {
                 if let (IfKind::Defined, false) | (IfKind::NotDefined, true) =
                     (if_kind, macro_defined)
                 {
-                    self.eat_until_else_or_endif();
+                    return self.eat_until_else_or_endif();
                 }
                 TokenKind::PreProcessor
             }
@@ -91,8 +91,7 @@ impl<T: TokenStream> PreProcessor<T> {
     }
 
     fn process_else(&mut self) -> TokenKind {
-        self.eat_until_else_or_endif();
-        TokenKind::PreProcessor
+        self.eat_until_else_or_endif()
     }
 
     fn process_endif(&mut self) -> TokenKind {
@@ -121,7 +120,7 @@ impl<T: TokenStream> PreProcessor<T> {
         }
     }
 
-    fn eat_until_else_or_endif(&mut self) {
+    fn eat_until_else_or_endif(&mut self) -> TokenKind {
         let mut depth = 1;
         loop {
             match self.token_stream.eat() {
@@ -132,11 +131,10 @@ impl<T: TokenStream> PreProcessor<T> {
                     depth -= 1;
                 }
                 T![#else] | T![#endif] if depth == 1 => {
-                    break;
+                    return TokenKind::PreProcessor;
                 }
                 TokenKind::Eof => {
-                    self.error("reached EOF without matching #endif");
-                    break;
+                    return self.error("reached EOF without matching #endif");
                 }
                 _ => {}
             }
